@@ -271,6 +271,45 @@ func ruleBHash(w *World, r *Report) {
 			r.bad("B-HASH", key, pos, "the identity key is not uniquely decodable: "+why+" — two different nodes can get the same key and are merged by union / ancestor de-duplication")
 		}
 	}
+	// own-node clause: what identifies the node (type, names, value) is read
+	// from the cursor before the cursor is moved towards the root
+	var moves, reads []ssa.CallInstruction
+	eachInstr(fn, false, func(_ *ssa.Function, in ssa.Instruction) {
+		ci, ok := in.(ssa.CallInstruction)
+		if !ok {
+			return
+		}
+		if _, _, class, ok := w.isNavCall(ci); ok {
+			switch class {
+			case "move":
+				moves = append(moves, ci)
+			case "read":
+				reads = append(reads, ci)
+			}
+		}
+	})
+	have := map[string]bool{}
+	for _, rd := range reads {
+		_, m, _, _ := w.isNavCall(rd)
+		have[m] = true
+		late := false
+		for _, mv := range moves {
+			if instrReaches(mv, rd) {
+				late = true
+			}
+		}
+		key := "own:" + m
+		if late {
+			r.bad("B-HASH", key, w.instrPos(rd), fmt.Sprintf("%s() is read after the cursor may have been moved (towards the root): the key carries an ancestor's %s instead of the node's own, so distinct nodes get one key", m, m))
+		} else {
+			r.ok("B-HASH", key, w.instrPos(rd), "read before any cursor movement")
+		}
+	}
+	for _, m := range []string{"NodeType", "LocalName"} {
+		if !have[m] {
+			r.bad("B-HASH", "own:"+m, w.pos(fn.Pos()), "the identity key does not read "+m+"(): an attribute/text node and an element at the same index path get one key")
+		}
+	}
 	w.checkUnionLoop(r, fn)
 }
 
